@@ -20,17 +20,77 @@
 //!   C20.garbage.frames           LengthDelimitedCodec::{decode_payload, decode_payload_v2} on every truncation
 //!                                and every single-bit flip of valid v1 / v2 frame bodies (Ping, AppendEntries-free
 //!                                SnapshotResponse with 40 data bytes, compressed and not)
-use crate::fw::{Report, Tier};
+//!   C20.message.sparse_fields    network messages that carry a `SparseVector` whose wire form is NOT well-formed.  The wire
+//!                                bytes are the real encoding (`LengthDelimitedCodec::encode` / `encode_v2` / a hand-built
+//!                                LZ4 v2 body) of a real `Message` whose vector was materialised from the bitcode layout
+//!                                (dimension, positions, values) without any constructor check.  Receive path in the child:
+//!                                `decode_payload` / `decode_payload_v2` -> `CompositeValidator::validate` (+
+//!                                `EmbeddingValidator::validate` on every carried vector) -> for an ACCEPTED message the
+//!                                consumers of the receiving code: `to_dense`, `magnitude`, `dot`, `cosine_similarity` (both
+//!                                operand orders against a well-formed vector of the same dimension, = geometric routing /
+//!                                `geometric_vote_bias`), `RaftNode::handle_message` (RequestVote / PreVote with equal logs and
+//!                                geometric tie-break; AppendEntries fast path before and after 6 well-formed heartbeats of the
+//!                                same leader), `DistributedTxCoordinator::handle_prepare` next to a pending transaction
+//!                                (TxPrepare), `record_vote` of the last missing shard (TxPrepareResponse).
+//!                                Clause: nothing panics / aborts; every vector carried by an accepted message has strictly
+//!                                increasing positions < dimension, positions.len() == values.len(), 0 < dimension <=
+//!                                max_embedding_dimension and finite values (the validator's documented checks).
+//!                                Domain: variants {RequestVote, PreVote, AppendEntries.block_embedding, TxPrepare,
+//!                                QueryRequest.embedding} x dimension {0, 1, 4, 65536, 65537, 2^32, usize::MAX} x position
+//!                                lists {empty, 0, d-1, d, d+1, u32::MAX, pairs / triples sorted, unsorted, duplicated, reaching
+//!                                d / u32::MAX} x value count {=, -1, +1, +3, 0} x value classes {plain, explicit zero, NaN, +inf,
+//!                                -inf, 1e30, f32::MAX} x framing {v1, v2 plain, v2 LZ4}; plus every truncation and every
+//!                                single-bit flip of the v1 body of a valid message of each variant (a flip in the position /
+//!                                length columns yields exactly such vectors).
+//!   C20.message.sparse_fields.lengths     the same clause for the (validated) messages whose decoded vector has
+//!                                positions.len() != values.len() (the pinned `EmbeddingValidator::validate` never compared the
+//!                                two lengths; repaired by a fix: commit).
+//!   C20.message.sparse_fields.unchecked   the carriers that the pinned validator passed without looking at the vector:
+//!                                TxPrepareResponse (TxVote::Yes.delta) and DataMergeResponse.state_embedding (and whatever other
+//!                                carrier a bit flip turns the message into).  Clause: no consumer panics and an accepted vector
+//!                                satisfies the REPRESENTATION invariant (one value per position, positions strictly increasing
+//!                                and below the dimension, dimension <= the limit); an empty vector and non-finite values are
+//!                                valid values of the type and are not held against these carriers (that is embedding policy,
+//!                                which the validator applies to the other carriers only).
+//!   C20.stream.reader            tensor_compress::streaming (`StreamingWriter`, `StreamingReader::{open, next}`,
+//!                                `read_streaming_to_snapshot`, `convert_to_streaming`, `merge_streaming`): exact round trip of
+//!                                0 / 1 / 2 / 4 / 40 entries covering every CompressedValue variant; every truncation and every
+//!                                single-bit flip of short valid streams; the trailer re-serialised with entry_count /
+//!                                data_start in {0, 1, n-1, n+1, ..., 2^31, 2^62, 2^63, u64::MAX}, corrupted magic / version;
+//!                                the trailer-length field and every entry length prefix replaced by boundary values (0, +-1,
+//!                                remaining+1, the 1 MiB / 100 MiB limits and limit+1, 2^31, u32::MAX / u64::MAX).
+//!                                Clause: Err, or Ok(value) with header.entry_count == entries.len() that re-encodes and reads
+//!                                back to the same entries (the three readers agree); an untouched stream reads back exactly;
+//!                                never a panic / abort / allocation beyond the 3 GiB cap.
+//!
+//! The cases of the last four obligations run in BATCHES of 150 per child (`bounded replay c20_garbage <ob> {"batch": [...]}`,
+//! same address-space cap): a panic is caught per call and reported as a failure of the case, a child that dies (abort,
+//! failed allocation) fails the case it was running and the rest of the batch continues in a new child.  The obligation of a
+//! sparse_fields case is decided by what the bytes DECODE to (validated carrier / unvalidated carrier / length mismatch).
+use crate::fw::{no_panic, Report, Tier};
 use serde_json::{json, Value};
 use std::collections::BTreeMap;
+use std::io::Cursor;
+use std::panic::AssertUnwindSafe;
+use std::sync::Arc;
 use tensor_chain::network::{Message, SnapshotResponse};
+use tensor_chain::tcp::compression::{compress, frame_flags};
 use tensor_chain::tcp::{CompressionConfig, CompressionMethod, LengthDelimitedCodec};
-use tensor_compress::format::{decompress_ints, decompress_vector, CompressedEntry, CompressedSnapshot, CompressedValue, Header};
+use tensor_chain::{AppendEntries, CompositeValidator, ConsensusConfig, ConsensusManager, DataMergeResponse, DistributedTxConfig, DistributedTxCoordinator, EmbeddingValidator,
+                   MemoryTransport, MessageValidationConfig, MessageValidator, PreVote, PrepareRequest, PrepareVote, QueryRequest, RaftConfig, RaftNode, RequestVote, Transaction,
+                   TxPrepareMsg, TxPrepareResponseMsg, TxVote};
+use tensor_compress::format::{decompress_ints, decompress_vector, CompressedEntry, CompressedScalar, CompressedSnapshot, CompressedValue, Header};
+use tensor_compress::streaming::{convert_to_streaming, merge_streaming, read_streaming_to_snapshot, StreamingHeader, StreamingReader, StreamingWriter, STREAMING_MAGIC, STREAMING_VERSION};
 use tensor_compress::{compress_ids, CompressionConfig as SnapConfig, RleEncoded, TTCore};
+use tensor_store::SparseVector;
 
 const O_VAL: &str = "C20.garbage.snapshot_values";
 const O_BYTES: &str = "C20.garbage.snapshot_bytes";
 const O_FRM: &str = "C20.garbage.frames";
+const O_SPF: &str = "C20.message.sparse_fields";
+const O_SPFL: &str = "C20.message.sparse_fields.lengths";
+const O_SPFU: &str = "C20.message.sparse_fields.unchecked";
+const O_STR: &str = "C20.stream.reader";
 
 fn dims() -> Vec<usize> { vec![0, 1, 8, 1 << 20, 1 << 31, 1 << 40, usize::MAX / 4, usize::MAX] }
 
@@ -95,6 +155,567 @@ fn mutate(bytes: &[u8], m: &Value) -> Vec<u8> {
     if let Some(f) = m.get("flip").and_then(Value::as_u64) { let i = (f / 8) as usize; if i < b.len() { b[i] ^= 1 << (f % 8); } }
     b
 }
+
+// ---------------------------------------------------------------------------------------------------------
+// C20.message.sparse_fields: messages whose SparseVector is malformed ON THE WIRE
+// ---------------------------------------------------------------------------------------------------------
+const SPF_CHECKED: [&str; 5] = ["rv", "pv", "ae", "txp", "qr"];
+const SPF_UNCHECKED: [&str; 2] = ["txr", "dmr"];
+const MAX_EMB_DIM: usize = 65536;
+
+/// A SparseVector exactly as a peer can put it on the wire: bitcode lays a struct out as the tuple of its
+/// fields, so the (dimension, positions, values) tuple decodes as a SparseVector without any constructor check.
+fn wire_sparse(dim: usize, pos: &[u32], vals: &[f32]) -> SparseVector {
+    let b = bitcode::serialize(&(dim, pos.to_vec(), vals.to_vec())).expect("harness: serialize tuple");
+    let sv: SparseVector = bitcode::deserialize(&b).expect("harness: the tuple layout no longer decodes as a SparseVector");
+    assert!(sv.dimension() == dim && sv.positions() == pos && sv.values().len() == vals.len() && sv.values().iter().zip(vals).all(|(a, b)| a.to_bits() == b.to_bits()),
+            "harness: wire_sparse did not reproduce the requested parts");
+    sv
+}
+
+fn sparse_message(variant: &str, sv: SparseVector) -> Message {
+    let b = || "b".to_string();
+    match variant {
+        "rv" => Message::RequestVote(RequestVote { term: 2, candidate_id: b(), last_log_index: 0, last_log_term: 0, state_embedding: sv }),
+        "pv" => Message::PreVote(PreVote { term: 1, candidate_id: b(), last_log_index: 0, last_log_term: 0, state_embedding: sv }),
+        "ae" => Message::AppendEntries(AppendEntries { term: 1, leader_id: b(), prev_log_index: 0, prev_log_term: 0, entries: vec![], leader_commit: 0, block_embedding: Some(sv) }),
+        "txp" => Message::TxPrepare(TxPrepareMsg { tx_id: 77, coordinator: b(), shard_id: 1, operations: vec![Transaction::Put { key: "k2".to_string(), data: vec![1] }], delta_embedding: sv, timeout_ms: 1000 }),
+        "qr" => Message::QueryRequest(QueryRequest { query_id: 5, query: "SELECT 1".to_string(), shard_id: 0, embedding: Some(sv), timeout_ms: 1000 }),
+        "txr" => Message::TxPrepareResponse(TxPrepareResponseMsg { tx_id: 77, shard_id: 1, vote: TxVote::Yes { lock_handle: 1, delta: sv, affected_keys: vec!["k2".to_string()] } }),
+        _ => Message::DataMergeResponse(DataMergeResponse { session_id: 1, responder: b(), delta_entries: vec![], state_embedding: Some(sv), has_more: false }),
+    }
+}
+
+/// the frame body a receiver is handed: 0 = v1, 1 = v2 without compression, 2 = v2 with an LZ4 payload
+fn spf_body(msg: &Message, frame: u64) -> Vec<u8> {
+    let codec = LengthDelimitedCodec::default();
+    match frame {
+        0 => codec.encode(msg).expect("harness: encode")[4..].to_vec(),
+        1 => codec.encode_v2(msg).expect("harness: encode_v2")[4..].to_vec(),
+        _ => {
+            let ser = bitcode::serialize(msg).expect("harness: serialize");
+            let mut b = vec![frame_flags(CompressionMethod::Lz4)];
+            b.extend(compress(&ser, CompressionMethod::Lz4));
+            b
+        },
+    }
+}
+
+/// every SparseVector the receiving code reads from the message
+fn carried(msg: &Message) -> (bool, Vec<&SparseVector>) {
+    match msg {
+        Message::RequestVote(m) => (true, vec![&m.state_embedding]),
+        Message::PreVote(m) => (true, vec![&m.state_embedding]),
+        Message::AppendEntries(m) => (true, m.block_embedding.iter().collect()),
+        Message::TxPrepare(m) => (true, vec![&m.delta_embedding]),
+        Message::QueryRequest(m) => (true, m.embedding.iter().collect()),
+        Message::TxPrepareResponse(m) => (false, match &m.vote { TxVote::Yes { delta, .. } => vec![delta], _ => vec![] }),
+        Message::DataMergeResponse(m) => (false, m.state_embedding.iter().collect()),
+        _ => (false, vec![]),
+    }
+}
+
+/// `policy`: the carrier is one whose vector the validator holds to the embedding policy (non-empty, finite values) as well;
+/// for the others (a vote's delta, a merge state) only what "a valid value" means for the type is required: the
+/// representation invariant its consumers index by, and a dimension that may be densified.
+fn spf_invariant(v: &SparseVector, policy: bool) -> Result<(), String> {
+    let (d, p, x) = (v.dimension(), v.positions(), v.values());
+    let show = || format!("dimension {d}, positions {:?}{}, {} values", &p[..p.len().min(6)], if p.len() > 6 { ".." } else { "" }, x.len());
+    if p.len() != x.len() { return Err(format!("accepted vector has {} positions but {} values ({})", p.len(), x.len(), show())); }
+    if let Some(q) = p.iter().find(|q| **q as usize >= d) { return Err(format!("accepted vector has position {q} >= dimension ({})", show())); }
+    if p.windows(2).any(|w| w[0] >= w[1]) { return Err(format!("accepted vector has positions that are not strictly increasing ({})", show())); }
+    if (policy && d == 0) || d > MAX_EMB_DIM { return Err(format!("accepted vector has dimension {d}, outside {}..={MAX_EMB_DIM} ({})", usize::from(policy), show())); }
+    if policy { if let Some(y) = x.iter().find(|y| !y.is_finite()) { return Err(format!("accepted vector holds the non-finite value {y} ({})", show())); } }
+    Ok(())
+}
+
+/// a well-formed vector of the same dimension whose entries meet the usual positions of the domain
+fn local_like(d: usize) -> Option<SparseVector> {
+    if d == 0 || d > u32::MAX as usize { return None; }
+    let mut pos: Vec<u32> = [0usize, 1, 2, 3, d - 1].iter().filter(|p| **p < d).map(|p| *p as u32).collect();
+    pos.sort_unstable();
+    pos.dedup();
+    let n = pos.len();
+    SparseVector::try_from_parts(d, pos, vec![1.0; n]).ok()
+}
+
+fn spf_node(local: &SparseVector) -> RaftNode {
+    let cfg = RaftConfig { auto_heartbeat: false, ..RaftConfig::default() };
+    let node = RaftNode::with_state("a".to_string(), vec!["b".to_string(), "c".to_string()], Arc::new(MemoryTransport::new("a".to_string())), cfg, 1, None, vec![]);
+    node.update_state_embedding(local.clone());
+    node
+}
+
+fn spf_coord() -> DistributedTxCoordinator {
+    DistributedTxCoordinator::new(ConsensusManager::new(ConsensusConfig::default()), DistributedTxConfig { optimistic_locking: true, ..DistributedTxConfig::default() })
+}
+
+fn guarded<T>(what: &str, f: impl FnOnce() -> T) -> Result<T, String> { no_panic(AssertUnwindSafe(f)).map_err(|p| format!("{what} panicked: {p}")) }
+
+/// what the receiving code does with an ACCEPTED message: (consumer groups that ran, panics)
+fn spf_consume(msg: &Message) -> (Vec<&'static str>, Vec<String>) {
+    let mut ran = vec![];
+    let mut bad = vec![];
+    let (_, vecs) = carried(msg);
+    for v in &vecs {
+        let direct = || -> Result<(), String> {
+            guarded("SparseVector::magnitude", || v.magnitude())?;
+            guarded("SparseVector::to_dense", || v.to_dense().len())?;
+            if let Some(l) = local_like(v.dimension()) {
+                guarded("SparseVector::dot(received, local)", || v.dot(&l))?;
+                guarded("SparseVector::dot(local, received)", || l.dot(v))?;
+                guarded("SparseVector::cosine_similarity(received, local)", || v.cosine_similarity(&l))?;
+                guarded("SparseVector::cosine_similarity(local, received)", || l.cosine_similarity(v))?;
+                guarded("SparseVector::cosine_similarity(received, received)", || v.cosine_similarity(v))?;
+            }
+            Ok(())
+        };
+        if let Err(p) = direct() { bad.push(p); }
+        ran.push("direct");
+    }
+    let Some(local) = vecs.first().and_then(|v| local_like(v.dimension())) else { return (ran, bad) };
+    let from = "b".to_string();
+    let first_prepare = |c: &DistributedTxCoordinator| -> Option<u64> {
+        let tx = c.begin(&"a".to_string(), &[0, 1]).ok()?;
+        let first = PrepareRequest { tx_id: tx.tx_id, coordinator: "a".to_string(), operations: vec![Transaction::Put { key: "k1".to_string(), data: vec![0] }], delta_embedding: local.clone(), timeout_ms: 1000 };
+        let v = c.handle_prepare(&first);
+        let _ = c.record_vote(tx.tx_id, 0, v);
+        Some(tx.tx_id)
+    };
+    let mut handler = |name: &'static str, what: &str, f: &mut dyn FnMut()| { if let Err(p) = guarded(what, f) { bad.push(p); } ran.push(name); };
+    match msg {
+        Message::RequestVote(_) | Message::PreVote(_) => {
+            handler("raft.vote", "RaftNode::handle_message(vote request with equal logs: geometric tie-break)", &mut || { let n = spf_node(&local); let _ = n.handle_message(&from, msg); });
+        },
+        Message::AppendEntries(ae) => {
+            let good = Message::AppendEntries(AppendEntries { block_embedding: Some(local.clone()), ..ae.clone() });
+            handler("raft.fast_path", "RaftNode::handle_message(AppendEntries) followed by 6 well-formed heartbeats of the same leader", &mut || {
+                let n = spf_node(&local);
+                let _ = n.handle_message(&from, msg);
+                for _ in 0..6 { let _ = n.handle_message(&from, &good); }
+            });
+            handler("raft.fast_path_history", "RaftNode::handle_message(AppendEntries) after 6 well-formed heartbeats of the same leader", &mut || {
+                let n = spf_node(&local);
+                for _ in 0..6 { let _ = n.handle_message(&from, &good); }
+                let _ = n.handle_message(&from, msg);
+                let _ = n.handle_message(&from, &good);
+            });
+        },
+        Message::TxPrepare(p) => {
+            handler("2pc.prepare", "DistributedTxCoordinator::handle_prepare next to a pending transaction", &mut || {
+                let c = spf_coord();
+                if first_prepare(&c).is_none() { return; }
+                // (the request the cluster builds from the message)
+                let req = PrepareRequest { tx_id: p.tx_id, coordinator: p.coordinator.clone(), operations: p.operations.clone(), delta_embedding: p.delta_embedding.clone(), timeout_ms: p.timeout_ms };
+                let _ = c.handle_prepare(&req);
+            });
+        },
+        Message::TxPrepareResponse(r) => {
+            handler("2pc.vote", "DistributedTxCoordinator::record_vote of the last missing shard", &mut || {
+                let c = spf_coord();
+                let Some(tx_id) = first_prepare(&c) else { return };
+                let vote: PrepareVote = r.vote.clone().into();
+                let _ = c.record_vote(tx_id, 1, vote);
+            });
+        },
+        _ => {},
+    }
+    (ran, bad)
+}
+
+fn spf_base_vector() -> SparseVector { wire_sparse(4, &[1, 3], &[1.0, 2.0]) }
+
+fn spf_default_ob(case: &Value) -> &'static str {
+    if SPF_UNCHECKED.contains(&case["variant"].as_str().unwrap_or("")) { return O_SPFU; }
+    let n = |k: &str| case[k].as_array().map(Vec::len);
+    if case.get("dim").is_some() && n("pos") != n("vbits") { O_SPFL } else { O_SPF }
+}
+
+/// runs in the child: (obligation, verdict, the message was accepted)
+fn judge_spmsg(case: &Value) -> (&'static str, Result<String, String>, bool) {
+    let variant = case["variant"].as_str().unwrap_or("rv");
+    let frame = case["frame"].as_u64().unwrap_or(0);
+    let sv = if case.get("dim").is_some() {
+        let pos: Vec<u32> = case["pos"].as_array().map(|a| a.iter().map(|p| p.as_u64().unwrap_or(0) as u32).collect()).unwrap_or_default();
+        let vals: Vec<f32> = case["vbits"].as_array().map(|a| a.iter().map(|p| f32::from_bits(p.as_u64().unwrap_or(0) as u32)).collect()).unwrap_or_default();
+        wire_sparse(case["dim"].as_u64().unwrap_or(0) as usize, &pos, &vals)
+    } else { spf_base_vector() };
+    let body = mutate(&spf_body(&sparse_message(variant, sv), frame), case);
+    let mut ob = spf_default_ob(case);
+    let codec = LengthDelimitedCodec::default();
+    let dec = match guarded("decode_payload", || if frame == 0 { codec.decode_payload(&body) } else { codec.decode_payload_v2(&body) }) { Err(p) => return (ob, Err(p), false), Ok(d) => d };
+    let msg = match dec { Err(e) => return (ob, Ok(format!("decode -> Err({e})")), false), Ok(m) => m };
+    let (checked, vecs) = carried(&msg);
+    if !vecs.is_empty() { ob = if !checked { O_SPFU } else if vecs.iter().any(|v| v.positions().len() != v.values().len()) { O_SPFL } else { O_SPF }; }
+    let ev = EmbeddingValidator::new(MAX_EMB_DIM, 1e6);
+    for v in &vecs { if let Err(p) = guarded("EmbeddingValidator::validate", || ev.validate(v, "field").is_ok()) { return (ob, Err(p), false); } }
+    let validator = CompositeValidator::new(MessageValidationConfig::default());
+    let verdict = match guarded("CompositeValidator::validate", || validator.validate(&msg, &"b".to_string())) { Err(p) => return (ob, Err(p), false), Ok(v) => v };
+    if let Err(e) = verdict { return (ob, Ok(format!("decode -> {} -> rejected: {e}", msg.type_name())), false); }
+    let mut bad: Vec<String> = vecs.iter().filter_map(|v| spf_invariant(v, checked).err()).collect();
+    // a dimension beyond the declared limit is not handed to to_dense (the allocation would only kill the child)
+    let consume = vecs.iter().all(|v| v.dimension() <= MAX_EMB_DIM);
+    let ran = if consume { let (r, p) = spf_consume(&msg); bad.extend(p); r } else { vec![] };
+    if bad.is_empty() { (ob, Ok(format!("decode -> {} -> accepted ({} vectors well-formed; consumers {:?} returned)", msg.type_name(), vecs.len(), ran)), true) }
+    else { (ob, Err(format!("{} accepted by the validator: {}", msg.type_name(), bad.join("; "))), true) }
+}
+
+fn spf_positions(d: u64) -> Vec<Vec<u32>> {
+    let c = |x: u64| u32::try_from(x).unwrap_or(u32::MAX);
+    let (m, dm1, dd, dp1) = (u32::MAX, c(d.saturating_sub(1)), c(d), c(d.saturating_add(1)));
+    let mut v = vec![
+        vec![], vec![0], vec![dm1], vec![dd], vec![dp1], vec![m],
+        vec![0, dm1], vec![0, dd], vec![dm1, dd], vec![0, m], vec![0, 1, dd], vec![0, 1, 2], vec![0, 1, 2, 3],
+        vec![dd, 0], vec![dm1, 0], vec![1, 0], vec![2, 1], vec![3, 1, 2], vec![m, 0],
+        vec![0, 0], vec![1, 1], vec![dm1, dm1], vec![0, 1, 1],
+    ];
+    v.sort();
+    v.dedup();
+    v
+}
+
+fn spf_values(class: &str, k: usize) -> Vec<u32> {
+    (0..k).map(|j| match (class, j) {
+        ("zero", 0) => 0.0f32, ("nan", 0) => f32::NAN, ("ninf", 0) => f32::NEG_INFINITY, ("big", 0) => 1e30, ("max", 0) => f32::MAX,
+        ("inf", j) if j + 1 == k => f32::INFINITY,
+        _ => (j + 1) as f32,
+    }.to_bits()).collect()
+}
+
+fn spf_cases(tier: Tier) -> Vec<Value> {
+    let mut out = vec![];
+    let mut rot = 0u64;
+    let mut push = |out: &mut Vec<Value>, variant: &str, d: u64, pos: &[u32], vbits: Vec<u32>| {
+        let frames: Vec<u64> = if tier == Tier::Thorough { vec![0, 1, 2] } else { rot += 1; vec![rot % 3] };
+        for f in frames { out.push(json!({"kind": "spmsg", "variant": variant, "frame": f, "dim": d, "pos": pos, "vbits": vbits})); }
+    };
+    for variant in SPF_CHECKED {
+        for d in [0u64, 1, 4, 65536, 65537, 1 << 32, u64::MAX] {
+            for pos in spf_positions(d) {
+                let k = pos.len();
+                let mut nvs: Vec<usize> = vec![k, k + 1, k + 3, 0];
+                if k > 0 { nvs.push(k - 1); }
+                nvs.sort_unstable();
+                nvs.dedup();
+                for nv in nvs {
+                    push(&mut out, variant, d, &pos, spf_values("plain", nv));
+                    if nv == k && k > 0 { for class in ["zero", "nan", "inf", "ninf", "big", "max"] { push(&mut out, variant, d, &pos, spf_values(class, nv)); } }
+                }
+            }
+        }
+    }
+    for variant in SPF_UNCHECKED {
+        for d in [4u64, u64::MAX] {
+            for pos in spf_positions(d) {
+                let k = pos.len();
+                for nv in [k, k + 1] { push(&mut out, variant, d, &pos, spf_values("plain", nv)); }
+                if k > 0 { push(&mut out, variant, d, &pos, spf_values("plain", k - 1)); push(&mut out, variant, d, &pos, spf_values("nan", k)); }
+            }
+        }
+    }
+    // every truncation and every single-bit flip of the v1 body of a valid message of each variant
+    for variant in SPF_CHECKED.iter().chain(SPF_UNCHECKED.iter()) {
+        let n = spf_body(&sparse_message(variant, spf_base_vector()), 0).len();
+        for t in 0..n { out.push(json!({"kind": "spmsg", "variant": variant, "frame": 0, "trunc": t})); }
+        for f in 0..n * 8 { out.push(json!({"kind": "spmsg", "variant": variant, "frame": 0, "flip": f})); }
+    }
+    out
+}
+
+// ---------------------------------------------------------------------------------------------------------
+// C20.stream.reader: the streaming snapshot format
+// ---------------------------------------------------------------------------------------------------------
+fn st_small(i: usize) -> CompressedEntry {
+    let mut fields = BTreeMap::new();
+    fields.insert("v".to_string(), CompressedValue::Scalar(CompressedScalar::Int(i as i64 + 7)));
+    CompressedEntry { key: format!("k{i}"), fields }
+}
+
+/// four shapes that together hold every CompressedValue variant (and every CompressedScalar)
+fn st_full(i: usize) -> CompressedEntry {
+    let mut fields = BTreeMap::new();
+    let mut put = |k: &str, v: CompressedValue| { fields.insert(k.to_string(), v); };
+    match i % 4 {
+        0 => {
+            put("i", CompressedValue::Scalar(CompressedScalar::Int(-(i as i64) - 1)));
+            put("f", CompressedValue::Scalar(CompressedScalar::Float(0.5 + i as f64)));
+            put("s", CompressedValue::Scalar(CompressedScalar::String(format!("text {i}"))));
+            put("b", CompressedValue::Scalar(CompressedScalar::Bool(i % 8 == 0)));
+            put("n", CompressedValue::Scalar(CompressedScalar::Null));
+        },
+        1 => {
+            put("raw", CompressedValue::VectorRaw(vec![1.0, -0.0, i as f32]));
+            put("sp", CompressedValue::VectorSparse { dimension: 8 + i, positions: compress_ids(&[1, 5]), values: vec![1.0, 2.0] });
+        },
+        2 => {
+            put("tt", CompressedValue::VectorTT { cores: vec![TTCore { data: vec![0.5; 4], shape: (1, 2, 2) }, TTCore { data: vec![0.25; 4], shape: (2, 2, 1) }], original_dim: 4, shape: vec![2, 2], ranks: vec![1, 2, 1] });
+            put("ids", CompressedValue::IdList(compress_ids(&[1, 2, 300 + i as u64])));
+        },
+        _ => {
+            put("rle", CompressedValue::RleInt(RleEncoded { values: vec![7, -9], run_lengths: vec![3, 2] }));
+            put("p", CompressedValue::Pointer(format!("node:{i}")));
+            put("ps", CompressedValue::Pointers(vec!["a".to_string(), format!("b{i}")]));
+        },
+    }
+    CompressedEntry { key: format!("key:{i}"), fields }
+}
+
+fn st_entries(base: u64) -> Vec<CompressedEntry> {
+    match base {
+        0 => vec![st_small(0), st_small(1)],
+        1 => (0..4).map(st_full).collect(),
+        2 => vec![],
+        3 => vec![st_small(0)],
+        n => (0..n as usize).map(st_full).collect(),
+    }
+}
+
+fn st_config(base: u64) -> SnapConfig { if base % 2 == 1 { SnapConfig { delta_encoding: true, rle_encoding: true, ..SnapConfig::default() } } else { SnapConfig::default() } }
+
+/// (stream bytes, offset of every entry's length prefix, offset of the trailer) through the real writer
+fn st_write(entries: &[CompressedEntry], cfg: SnapConfig) -> Result<(Vec<u8>, Vec<usize>, usize), String> {
+    let mut w = StreamingWriter::new(Cursor::new(Vec::new()), cfg).map_err(|e| format!("StreamingWriter::new = Err({e})"))?;
+    let mut offs = vec![];
+    for e in entries {
+        offs.push(w.bytes_written() as usize);
+        w.write_entry(e).map_err(|e| format!("write_entry = Err({e})"))?;
+    }
+    if w.entry_count() != entries.len() as u64 { return Err(format!("writer counts {} entries after {} writes", w.entry_count(), entries.len())); }
+    let trailer = w.bytes_written() as usize;
+    let bytes = w.finish().map_err(|e| format!("finish = Err({e})"))?.into_inner();
+    Ok((bytes, offs, trailer))
+}
+
+fn ser(e: &CompressedEntry) -> Vec<u8> { bitcode::serialize(e).unwrap_or_default() }
+fn same_entries(a: &[CompressedEntry], b: &[CompressedEntry]) -> bool { a.len() == b.len() && a.iter().zip(b).all(|(x, y)| ser(x) == ser(y)) }
+
+fn u64_of(v: &Value) -> Option<u64> { v.as_u64().or_else(|| v.as_str().and_then(|s| s.parse().ok())) }
+
+/// the input of a stream case
+fn st_input(case: &Value) -> Result<(Vec<u8>, Vec<CompressedEntry>, bool), String> {
+    let base = case["base"].as_u64().unwrap_or(0);
+    let entries = st_entries(base);
+    let (mut bytes, offs, trailer) = st_write(&entries, st_config(base))?;
+    let mut untouched = true;
+    if let Some(t) = case.get("trailer") {
+        untouched = false;
+        let mut magic = STREAMING_MAGIC;
+        if let Some(m) = t["magic"].as_array() { for (i, b) in m.iter().take(4).enumerate() { magic[i] = b.as_u64().unwrap_or(0) as u8; } }
+        let h = StreamingHeader {
+            magic, version: t["version"].as_u64().map_or(STREAMING_VERSION, |v| v as u16), config: st_config(base),
+            entry_count: u64_of(&t["count"]).unwrap_or(entries.len() as u64), data_start: u64_of(&t["start"]).unwrap_or(4),
+        };
+        let tb = bitcode::serialize(&h).map_err(|e| format!("harness: {e}"))?;
+        bytes.truncate(trailer);
+        bytes.extend_from_slice(&tb);
+        bytes.extend_from_slice(&(tb.len() as u64).to_le_bytes());
+    }
+    if let Some(l) = u64_of(&case["tlen"]) { untouched = false; let n = bytes.len(); bytes[n - 8..].copy_from_slice(&l.to_le_bytes()); }
+    if let Some(e) = case.get("elen") {
+        untouched = false;
+        let k = e["k"].as_u64().unwrap_or(0) as usize;
+        let o = *offs.get(k).ok_or("harness: no such entry")?;
+        bytes[o..o + 4].copy_from_slice(&(u64_of(&e["len"]).unwrap_or(0) as u32).to_le_bytes());
+    }
+    if case.get("trunc").is_some() || case.get("flip").is_some() { untouched = false; bytes = mutate(&bytes, case); }
+    Ok((bytes, entries, untouched))
+}
+
+/// runs in the child: all readers of the format on one byte string
+fn judge_stream(case: &Value) -> Result<String, String> {
+    let (bytes, written, untouched) = st_input(case)?;
+    // (a) open + iterate, stopping at the first error like read_streaming_to_snapshot does
+    let it = guarded("StreamingReader::open / next", || -> Result<(u64, Vec<CompressedEntry>, Option<String>, bool), String> {
+        let mut rd = StreamingReader::open(Cursor::new(&bytes[..])).map_err(|e| e.to_string())?;
+        let count = rd.entry_count();
+        let mut got = vec![];
+        let mut err = None;
+        while rd.has_next() {
+            match rd.next() { Some(Ok(e)) => got.push(e), Some(Err(e)) => { err = Some(e.to_string()); break; }, None => { err = Some("has_next() but next() = None".to_string()); break; } }
+        }
+        let done = err.is_some() || (rd.next().is_none() && rd.entries_read() == count);
+        Ok((count, got, err, done))
+    })?;
+    // (b) the whole stream as a snapshot
+    let snap = guarded("read_streaming_to_snapshot", || read_streaming_to_snapshot(Cursor::new(&bytes[..])).map_err(|e| e.to_string()))?;
+    // (c) merged behind a valid stream
+    let other = st_entries(3);
+    let (ob, _, _) = st_write(&other, SnapConfig::default())?;
+    let merged = guarded("merge_streaming", || -> Result<(u64, Vec<u8>), String> {
+        let mut out = Cursor::new(Vec::new());
+        let n = merge_streaming(vec![Cursor::new(&ob[..]), Cursor::new(&bytes[..])], &mut out, SnapConfig::default()).map_err(|e| e.to_string())?;
+        Ok((n, out.into_inner()))
+    })?;
+    let reread = |b: &[u8]| guarded("read_streaming_to_snapshot of a re-encoded stream", || read_streaming_to_snapshot(Cursor::new(b)).map_err(|e| e.to_string()));
+    let mut obs = String::new();
+    let full: Option<Vec<CompressedEntry>> = match &it {
+        Err(e) => { obs.push_str(&format!("open -> Err({e})")); None },
+        Ok((count, got, Some(e), _)) => { obs.push_str(&format!("open -> Ok(count {count}), {} entries then Err({e})", got.len())); None },
+        Ok((count, got, None, done)) => {
+            if got.len() as u64 != *count || !*done { return Err(format!("the iterator ended without an error after {} entries but the header declares {count}", got.len())); }
+            obs.push_str(&format!("open -> Ok, {} entries", got.len()));
+            Some(got.clone())
+        },
+    };
+    match (&snap, &full) {
+        (Ok(s), Some(got)) => {
+            if s.header.validate().is_err() { return Err("read_streaming_to_snapshot returned a header that does not validate".to_string()); }
+            if s.header.entry_count != s.entries.len() as u64 { return Err(format!("read_streaming_to_snapshot: header.entry_count {} but {} entries", s.header.entry_count, s.entries.len())); }
+            if !same_entries(&s.entries, got) { return Err("read_streaming_to_snapshot and the iterator disagree about the entries".to_string()); }
+            let mut out = Cursor::new(Vec::new());
+            let n = guarded("convert_to_streaming", || convert_to_streaming(s, &mut out).map_err(|e| e.to_string()))?.map_err(|e| format!("re-encoding the decoded snapshot = Err({e})"))?;
+            let back = reread(&out.into_inner())?.map_err(|e| format!("the re-encoded stream is refused: Err({e})"))?;
+            if n != got.len() as u64 || !same_entries(&back.entries, got) || back.header.entry_count != n { return Err(format!("the decoded snapshot ({} entries) re-encodes to {n} entries / reads back as {}", got.len(), back.entries.len())); }
+        },
+        (Ok(s), None) => return Err(format!("read_streaming_to_snapshot = Ok({} entries) although iterating the same bytes fails ({obs})", s.entries.len())),
+        (Err(e), Some(got)) => return Err(format!("read_streaming_to_snapshot = Err({e}) although iterating the same bytes yields all {} entries", got.len())),
+        (Err(_), None) => {},
+    }
+    match (&merged, &full) {
+        (Ok((n, outb)), Some(got)) => {
+            let back = reread(outb)?.map_err(|e| format!("the merged stream is refused: Err({e})"))?;
+            let mut want = other.clone();
+            want.extend(got.iter().cloned());
+            if *n != want.len() as u64 || !same_entries(&back.entries, &want) { return Err(format!("merge_streaming = Ok({n}) but the output holds {} entries, expected the {} of both inputs in order", back.entries.len(), want.len())); }
+        },
+        (Ok((n, _)), None) => return Err(format!("merge_streaming = Ok({n}) although iterating the second input fails ({obs})")),
+        (Err(e), Some(_)) => return Err(format!("merge_streaming = Err({e}) although both inputs iterate without an error")),
+        (Err(_), None) => {},
+    }
+    if untouched {
+        match &full {
+            Some(got) if same_entries(got, &written) => {},
+            Some(got) => return Err(format!("the stream written from {} entries reads back as {} different entries", written.len(), got.len())),
+            None => return Err(format!("a stream written by StreamingWriter ({} entries, {} bytes) is refused: {obs}", written.len(), bytes.len())),
+        }
+    }
+    Ok(obs)
+}
+
+fn st_cases(tier: Tier) -> Vec<Value> {
+    let mut out = vec![];
+    let big = 1u64 << 62;
+    // exact round trips
+    for base in [0u64, 1, 2, 3, 40] { out.push(json!({"kind": "stream", "base": base})); }
+    for base in [0u64, 1, 2, 3] {
+        let entries = st_entries(base);
+        let Ok((bytes, offs, trailer)) = st_write(&entries, st_config(base)) else { continue };
+        let (n, len) = (entries.len() as u64, bytes.len() as u64);
+        let step = if tier == Tier::Thorough || base != 1 { 1 } else { 3 };
+        for t in (0..bytes.len()).step_by(step) { out.push(json!({"kind": "stream", "base": base, "trunc": t})); }
+        for f in (0..bytes.len() * 8).step_by(step) { out.push(json!({"kind": "stream", "base": base, "flip": f})); }
+        // the trailer re-serialised with other counts / offsets
+        let mut counts = vec![0u64, 1, n.saturating_sub(1), n, n + 1, 1 << 31, big, (u64::MAX >> 1) + 1, u64::MAX];
+        counts.sort_unstable();
+        counts.dedup();
+        let mut starts = vec![0u64, 1, 3, 4, 5, *offs.get(1).unwrap_or(&4) as u64, trailer as u64, len - 1, len, len + 1, 1 << 31, big, (u64::MAX >> 1) + 1, u64::MAX];
+        starts.sort_unstable();
+        starts.dedup();
+        for c in &counts { for s in &starts { out.push(json!({"kind": "stream", "base": base, "trailer": {"count": c.to_string(), "start": s.to_string()}})); } }
+        for magic in [[0u8, 69, 85, 83], [78, 0, 85, 83], [78, 69, 0, 83], [78, 69, 85, 0], [78, 69, 85, 77], [0, 0, 0, 0], [110, 69, 85, 83]] { out.push(json!({"kind": "stream", "base": base, "trailer": {"magic": magic}})); }
+        for v in [0u64, 1, 2, 255, 256, 65535] { out.push(json!({"kind": "stream", "base": base, "trailer": {"version": v}})); }
+        // the trailer length field
+        let tl = len - 8 - trailer as u64;
+        for l in [0u64, 1, tl - 1, tl + 1, len - 8, len - 7, len, 1 << 20, (1 << 20) + 1, 1 << 31, big, (u64::MAX >> 1) + 1, u64::MAX - 8, u64::MAX] { out.push(json!({"kind": "stream", "base": base, "tlen": l.to_string()})); }
+        // entry length prefixes
+        for (k, o) in offs.iter().enumerate() {
+            let real = u32::from_le_bytes([bytes[*o], bytes[o + 1], bytes[o + 2], bytes[o + 3]]) as u64;
+            let remaining = len - *o as u64 - 4;
+            for l in [0u64, 1, real - 1, real + 1, remaining, remaining + 1, 100 << 20, (100 << 20) + 1, 1 << 31, u64::from(u32::MAX)] { out.push(json!({"kind": "stream", "base": base, "elen": {"k": k, "len": l}})); }
+        }
+    }
+    out
+}
+
+/// runs in the child: one case of the batch kinds -> (obligation, verdict, nontrivial)
+fn judge_batch_case(case: &Value) -> (&'static str, Result<String, String>, bool) {
+    match case["kind"].as_str().unwrap_or("") {
+        "spmsg" => judge_spmsg(case),
+        "stream" => { let r = judge_stream(case); let nt = r.as_ref().is_ok_and(|s| s.starts_with("open -> Ok,")); (O_STR, r, nt) },
+        _ => (O_STR, Err("unknown case".to_string()), false),
+    }
+}
+
+fn batch_default_ob(case: &Value) -> &'static str { if case["kind"] == "spmsg" { spf_default_ob(case) } else { O_STR } }
+
+fn child_batch(case: &Value) -> String {
+    use std::io::Write;
+    let single = [case.clone()];
+    let batch: &[Value] = case["batch"].as_array().map_or(&single[..], |a| &a[..]);
+    let out = std::io::stdout();
+    for (i, c) in batch.iter().enumerate() {
+        { let mut o = out.lock(); let _ = writeln!(o, "@S {i}"); let _ = o.flush(); }
+        let (ob, r, nt) = no_panic(AssertUnwindSafe(|| judge_batch_case(c))).unwrap_or_else(|p| (batch_default_ob(c), Err(format!("panicked outside a guarded call: {p}")), false));
+        let line = match r { Ok(d) => json!({"ok": true, "d": d, "ob": ob, "nt": nt}), Err(d) => json!({"ok": false, "d": d, "ob": ob, "nt": nt}) };
+        { let mut o = out.lock(); let _ = writeln!(o, "@R {i} {line}"); let _ = o.flush(); }
+    }
+    "batch done".to_string()
+}
+
+struct BatchRes { ok: bool, detail: String, ob: &'static str, nontrivial: bool }
+
+fn ob_static(s: &str, case: &Value) -> &'static str { [O_SPF, O_SPFL, O_SPFU, O_STR].into_iter().find(|o| *o == s).unwrap_or_else(|| batch_default_ob(case)) }
+
+/// parent side: evaluate `cases` in child processes under the address-space cap; a child that dies fails the
+/// case it was running and the rest continues in a new child
+fn run_batch(cases: &[Value]) -> Vec<BatchRes> {
+    let mut res: Vec<Option<BatchRes>> = cases.iter().map(|_| None).collect();
+    let mut start = 0usize;
+    let exe = match std::env::current_exe() { Ok(e) => e, Err(e) => return cases.iter().map(|c| BatchRes { ok: false, detail: format!("harness: current_exe: {e}"), ob: batch_default_ob(c), nontrivial: false }).collect() };
+    while start < cases.len() {
+        let out = std::process::Command::new("sh")
+            .arg("-c").arg("ulimit -v 3145728; exec \"$0\" replay c20_garbage \"$1\" \"$2\"")
+            .arg(&exe).arg(O_STR).arg(json!({"batch": &cases[start..]}).to_string())
+            .env("C20_GARBAGE_CHILD", "1")
+            .output();
+        let o = match out { Ok(o) => o, Err(e) => { for (r, c) in res.iter_mut().zip(cases).skip(start) { *r = Some(BatchRes { ok: false, detail: format!("harness: cannot spawn child: {e}"), ob: batch_default_ob(c), nontrivial: false }); } break; } };
+        let text = String::from_utf8_lossy(&o.stdout);
+        let mut started: Option<usize> = None;
+        let mut done = 0usize;
+        for line in text.lines() {
+            if let Some(i) = line.strip_prefix("@S ").and_then(|x| x.parse::<usize>().ok()) { started = Some(i); }
+            else if let Some((i, j)) = line.strip_prefix("@R ").and_then(|rest| rest.split_once(' ')) {
+                if let (Ok(i), Ok(v)) = (i.parse::<usize>(), serde_json::from_str::<Value>(j)) {
+                    if start + i < res.len() {
+                        res[start + i] = Some(BatchRes { ok: v["ok"].as_bool().unwrap_or(false), detail: v["d"].as_str().unwrap_or("").to_string(), ob: ob_static(v["ob"].as_str().unwrap_or(""), &cases[start + i]), nontrivial: v["nt"].as_bool().unwrap_or(false) });
+                        done = i + 1;
+                        started = None;
+                    }
+                }
+            }
+        }
+        if done == cases.len() - start { break; }
+        let err = String::from_utf8_lossy(&o.stderr);
+        // the line that says why (allocation failure / panic message) if there is one, else the last line
+        let last = err.lines().find(|l| l.contains("memory allocation of") || l.contains("capacity overflow") || l.starts_with("PANIC:"))
+            .or_else(|| err.lines().rev().find(|l| !l.trim().is_empty())).unwrap_or("").chars().take(200).collect::<String>();
+        let dead = start + started.unwrap_or(done);
+        if dead >= res.len() { break; }
+        res[dead] = Some(BatchRes { ok: false, detail: format!("decoder did not return: child status {:?}; {last}", o.status), ob: batch_default_ob(&cases[dead]), nontrivial: false });
+        start = dead + 1;
+    }
+    res.into_iter().zip(cases).map(|(r, c)| r.unwrap_or_else(|| BatchRes { ok: false, detail: "harness: no result from the child".to_string(), ob: batch_default_ob(c), nontrivial: false })).collect()
+}
+
+fn run_batches(cases: &[Value]) -> Vec<BatchRes> {
+    if cases.is_empty() { return vec![]; }
+    let chunks: Vec<&[Value]> = cases.chunks(150).collect();
+    let next = std::sync::atomic::AtomicUsize::new(0);
+    let slots: Vec<std::sync::Mutex<Vec<BatchRes>>> = chunks.iter().map(|_| std::sync::Mutex::new(vec![])).collect();
+    std::thread::scope(|sc| {
+        for _ in 0..12usize.min(chunks.len()) {
+            sc.spawn(|| loop {
+                let i = next.fetch_add(1, std::sync::atomic::Ordering::SeqCst);
+                if i >= chunks.len() { break; }
+                let r = run_batch(chunks[i]);
+                if let Ok(mut g) = slots[i].lock() { *g = r; }
+            });
+        }
+    });
+    slots.into_iter().flat_map(|m| m.into_inner().unwrap_or_default()).collect()
+}
+
+fn is_batch_kind(case: &Value) -> bool { case.get("batch").is_some() || matches!(case["kind"].as_str(), Some("spmsg" | "stream")) }
 
 /// runs INSIDE the child process: call the decoder; returning at all is success
 fn exec(case: &Value) -> String {
@@ -175,9 +796,17 @@ fn cases(tier: Tier) -> Vec<Value> {
 
 pub fn run(tier: Tier, _seed: u64) -> Report {
     let mut rep = Report::new("c20_garbage",
-        "corrupt snapshot values (sparse dimension up to usize::MAX, inconsistent tensor-train shapes, RLE run lengths up to u32::MAX), every truncation / sampled single-bit flips of a small compressed-snapshot encoding and of 8 frame bodies (v1/v2, compressed or not); each case runs in a child process under a 3 GiB address-space cap",
-        false, &["tensor_compress::format::decompress_vector", "tensor_compress::format::decompress_ints", "bitcode::deserialize::<CompressedSnapshot>", "LengthDelimitedCodec::decode_payload", "LengthDelimitedCodec::decode_payload_v2"]);
+        "corrupt snapshot values (sparse dimension up to usize::MAX, inconsistent tensor-train shapes, RLE run lengths up to u32::MAX), every truncation / sampled single-bit flips of a small compressed-snapshot encoding and of 8 frame bodies (v1/v2, compressed or not); each case runs in a child process under a 3 GiB address-space cap; \
+         sparse_fields: messages {RequestVote, PreVote, AppendEntries.block_embedding, TxPrepare, QueryRequest.embedding | unchecked: TxPrepareResponse Yes.delta, DataMergeResponse.state_embedding} carrying a wire SparseVector with dimension {0,1,4,65536,65537,2^32,usize::MAX} x 23 position lists (sorted / unsorted / duplicated / = d / d+1 / u32::MAX) x value count {=,-1,+1,+3,0} x value class {plain, zero, NaN, +inf, -inf, 1e30, f32::MAX} x framing {v1, v2 plain, v2 LZ4} (quick: framing rotates), + every truncation and single-bit flip of the v1 body of a valid message of each of the 7 variants; decode -> validate -> consumers (SparseVector::{to_dense, magnitude, dot, cosine_similarity}, RaftNode::handle_message, DistributedTxCoordinator::{handle_prepare, record_vote}); \
+         stream: StreamingWriter -> StreamingReader / read_streaming_to_snapshot / convert_to_streaming / merge_streaming on streams of 0 / 1 / 2 / 4 / 40 entries (every CompressedValue variant); every truncation and single-bit flip (quick: every 3rd of the 4-entry stream); trailer re-serialised with entry_count x data_start over {0, 1, n-1, n, n+1, entry / trailer offsets, len-1, len, len+1, 2^31, 2^62, 2^63, u64::MAX}, 7 corrupted magics, 6 versions; trailer length field and every entry length prefix replaced by {0, 1, real-1, real+1, remaining(+1), limit, limit+1, 2^31, 2^62.., MAX} (batches of 150 cases per child, same cap)",
+        false, &["tensor_compress::format::decompress_vector", "tensor_compress::format::decompress_ints", "bitcode::deserialize::<CompressedSnapshot>", "LengthDelimitedCodec::decode_payload", "LengthDelimitedCodec::decode_payload_v2",
+                 "CompositeValidator::validate", "EmbeddingValidator::validate", "SparseVector::{to_dense, magnitude, dot, cosine_similarity}", "RaftNode::handle_message", "DistributedTxCoordinator::handle_prepare", "DistributedTxCoordinator::record_vote",
+                 "tensor_compress::streaming::StreamingWriter::{new, write_entry, finish}", "StreamingReader::{open, next}", "read_streaming_to_snapshot", "convert_to_streaming", "merge_streaming"]);
     for o in [O_VAL, O_BYTES, O_FRM] { rep.declare(o, "decoders"); }
+    rep.declare(O_SPF, "LengthDelimitedCodec::{decode_payload, decode_payload_v2} -> CompositeValidator::validate / EmbeddingValidator::validate -> SparseVector consumers, RaftNode::handle_message, DistributedTxCoordinator::handle_prepare");
+    rep.declare(O_SPFL, "LengthDelimitedCodec::{decode_payload, decode_payload_v2} -> EmbeddingValidator::validate (positions.len() != values.len()) -> SparseVector::dot / cosine_similarity, RaftNode::handle_message, DistributedTxCoordinator::handle_prepare");
+    rep.declare(O_SPFU, "LengthDelimitedCodec::decode_payload -> CompositeValidator::validate (TxPrepareResponse, DataMergeResponse) -> SparseVector consumers, DistributedTxCoordinator::record_vote");
+    rep.declare(O_STR, "tensor_compress::streaming::{StreamingReader::open, StreamingReader::next, read_streaming_to_snapshot, convert_to_streaming, merge_streaming}");
     let cs = cases(tier);
     // children in parallel (each is a separate process)
     let results: Vec<(Value, bool, String)> = std::thread::scope(|s| {
@@ -192,10 +821,27 @@ pub fn run(tier: Tier, _seed: u64) -> Report {
     }
     rep.sample(json!({"kind": "sparse", "dim": 5}));
     rep.sample(json!({"kind": "snapbytes", "trunc": 7}));
+    // ---- batch kinds (malformed sparse vectors in messages, the streaming snapshot format)
+    let mut bc = spf_cases(tier);
+    bc.extend(st_cases(tier));
+    let results = run_batches(&bc);
+    for (c, r) in bc.iter().zip(results) {
+        rep.eval(r.nontrivial);
+        rep.check(r.ob, r.ok, &|| c.clone(), &|| r.detail.clone());
+    }
+    rep.sample(json!({"kind": "spmsg", "variant": "ae", "frame": 2, "dim": 4, "pos": [0, 4], "vbits": [1_065_353_216u32, 1_073_741_824u32]}));
+    rep.sample(json!({"kind": "spmsg", "variant": "rv", "frame": 0, "flip": 77}));
+    rep.sample(json!({"kind": "stream", "base": 0, "trailer": {"count": "4611686018427387904", "start": "4"}}));
     rep
 }
 
-pub fn replay(_ob: &str, case: &Value) -> Result<String, String> {
+pub fn replay(ob: &str, case: &Value) -> Result<String, String> {
+    if is_batch_kind(case) {
+        if std::env::var("C20_GARBAGE_CHILD").is_ok() { return Ok(child_batch(case)); }
+        let r = run_batch(std::slice::from_ref(case)).pop().ok_or("harness: no result")?;
+        // a failure recorded under another obligation of this set does not fail `ob`
+        return if r.ok || r.ob != ob { Ok(format!("[{}] {}", r.ob, r.detail)) } else { Err(r.detail) };
+    }
     if std::env::var("C20_GARBAGE_CHILD").is_ok() {
         // child: a panic / abort here IS the observation
         return Ok(exec(case));
